@@ -9,9 +9,16 @@ import Ibx.Spec.Store
 
   Parameters (not modelled, see DESIGN.md §9): the two regular expressions of MAIL FROM parsing (`mailRe`,
   `parseArgs`), enmime's header parsing (`hdr`), net.ParseIP (`ip`), the extension hooks, the clock
-  (`tstamp`), strings.ToUpper beyond ASCII.  TLS is disabled.  `budget` = number of reply lines that can
+  (`tstamp`), strings.ToUpper beyond ASCII, the TLS library (`Wire.tlsOpen`).  `budget` = number of reply lines that can
   still be sent before the network send fails (`none` = the peer keeps reading): after a failed send the
   loop ends at its next head, exactly as `for ssn.state != QUIT && ssn.sendError == nil`.
+
+  TLS.  `Env.tlsEnabled` is config.SMTP.TLSEnabled as NewServer leaves it (false when the key pair could not be loaded),
+  `Env.forceTLS` is config.SMTP.ForceTLS, `Sess.tls` is `s.tlsState != nil`.  `run` sees the COMMAND STREAM of the
+  connection: the bytes the session's textproto reader hands out, whether they arrived in the clear or inside TLS
+  records.  An accepted STARTTLS ("220", then `tls.Server`, a NEW textproto.Conn, tlsState recorded, state GREET) is
+  therefore one more transition of `handleLine`; what the switch does to the bytes on the wire — the old reader's
+  buffer is thrown away, the next read runs the handshake — is `runWire` below.
 -/
 namespace Ibx.Model.Smtp
 open Ibx Ibx.Bytes Ibx.Model
@@ -59,6 +66,8 @@ structure Env where
   hookRcpt : Option Bytes → List Bytes → Option HookAns  -- BeforeRcptToAccepted(from, to ++ [candidate])
   hookStored : Inbound → Option Inbound              -- BeforeMessageStored
   storeFails : Bytes → Bool                          -- AddMessage to this mailbox fails (I/O)
+  tlsEnabled : Bool := false                         -- config.TLSEnabled after NewServer (key pair loaded)
+  forceTLS : Bool := false                           -- config.ForceTLS: the listener is tls.Listen
 
 structure Origin where
   addr : Bytes
@@ -73,6 +82,7 @@ structure Sess where
   remoteDomain : Bytes
   sendErr : Bool
   budget : Option Nat
+  tls : Bool := false            -- tlsState != nil
   deriving Repr
 
 /-- one stored copy: Store.AddMessage(mailbox, meta, source) -/
@@ -91,6 +101,19 @@ inductive Ev
 
 def init (budget : Option Nat) : Sess :=
   { st := .greet, sender := none, rcpts := [], remoteDomain := [], sendErr := false, budget := budget }
+
+/-- NewSession: under ForceTLS the accepted connection is a *tls.Conn and tlsState is recorded at once -/
+def initFor (e : Env) (budget : Option Nat) : Sess := { init budget with tls := e.forceTLS }
+
+/-- the EHLO reply advertises STARTTLS:
+    `config.TLSEnabled && !config.ForceTLS && tlsConfig != nil && tlsState == nil` (tlsConfig is never nil) -/
+def advertises (e : Env) (s : Sess) : Bool := e.tlsEnabled && !e.forceTLS && !s.tls
+
+/-- number of lines of the EHLO reply: banner, 8BITMIME, AUTH, [STARTTLS,] SIZE -/
+def ehloLines (e : Env) (s : Sess) : Nat := if advertises e s then 5 else 4
+
+/-- STARTTLS in READY is accepted: neither of the two 454 exits is taken -/
+def acceptsStartTLS (e : Env) (s : Sess) : Bool := e.tlsEnabled && !s.tls
 
 /-- send one reply of `n` lines -/
 def send (s : Sess) (n : Nat) : Sess :=
@@ -230,10 +253,14 @@ def handleCmd (e : Env) (s : Sess) (name arg : Bytes) (acc : List Ev) : Sess × 
         else say { s with st := .ready, remoteDomain := arg.takeWhile (· != 32) } 250 acc
       else if name == Bytes.ofAscii "EHLO" then
         if arg.isEmpty then say s 501 acc
-        else ({ send s 4 with st := .ready, remoteDomain := arg.takeWhile (· != 32) }, .reply [250, 250, 250, 250] :: acc)
+        else ({ send s (ehloLines e s) with st := .ready, remoteDomain := arg.takeWhile (· != 32) },
+              .reply (List.replicate (ehloLines e s) 250) :: acc)
       else say s 503 acc
     | .ready =>
-      if name == Bytes.ofAscii "STARTTLS" then say s 454 acc
+      if name == Bytes.ofAscii "STARTTLS" then
+        if !e.tlsEnabled then say s 454 acc
+        else if s.tls then say s 454 acc
+        else say { s with st := .greet, tls := true } 220 acc
       else if name == Bytes.ofAscii "AUTH" then
         let (n, method) := splitN3 arg
         if method == Bytes.ofAscii "PLAIN" then (if n != 2 then say s 500 acc else say s 235 acc)
@@ -301,7 +328,7 @@ def handleData (e : Env) (s : Sess) (block : Bytes) (acc : List Ev) : Sess × Li
     let (ok, acc1) := deliver e s block acc
     if ok then say (reset s) 250 acc1 else say (reset s) 451 acc1
 
-inductive End | eof | quit | sendError | dataCut | outOfFuel
+inductive End | eof | quit | sendError | dataCut | outOfFuel | tlsFail
   deriving DecidableEq, Repr
 
 /-- the command loop of startSession; `fuel` bounds the iterations (input length + 1 always suffices) -/
@@ -326,8 +353,65 @@ def loop (e : Env) : Nat → Sess → Bytes → List Ev → List Ev × Sess × E
 
 /-- a whole connection: greeting, then the loop until EOF / QUIT / send error -/
 def run (e : Env) (budget : Option Nat) (inp : Bytes) : List Ev × Sess × End :=
-  let (s0, acc0) := say (init budget) 220 []
+  let (s0, acc0) := say (initFor e budget) 220 []
   loop e (inp.length + 2) s0 inp acc0
+
+/-! ### what is on the wire: STARTTLS and ForceTLS
+
+  `readyHandler` answers "220 STARTTLS", wraps `s.conn` in `tls.Server` and creates a NEW `textproto.Conn` on it.  The
+  handshake runs lazily, inside the next read or write.  Two things follow for bytes the client sent behind the STARTTLS
+  line without waiting for the 220:
+    * those the old textproto reader had ALREADY BUFFERED (same segment / same write, up to its 4096-byte buffer) are
+      thrown away with the old reader: they are neither executed nor seen by the handshake;
+    * those still in the socket are read by `tls.Server` as the beginning of the handshake, which fails
+      ("first record does not look like a TLS handshake"); the "221" the loop then tries to send needs the same failed
+      handshake, so nothing more reaches the client and the connection is closed.
+  Either way no byte sent in the clear behind STARTTLS is ever executed as a command.  How many bytes were buffered is a
+  matter of timing (`Wire.buffered`), the TLS library is the parameter `Wire.tlsOpen`. -/
+
+/-- the connection as the network sees it -/
+structure Wire where
+  /-- the bytes the client sends before / instead of a TLS handshake -/
+  pre : Bytes
+  /-- how many of the bytes following the accepted STARTTLS line the old reader had already buffered -/
+  buffered : Nat
+  /-- crypto/tls: given the raw bytes that reach `tls.Server`, the plaintext stream it hands to the session;
+      `none` = the handshake fails (or never happens) -/
+  tlsOpen : Bytes → Option Bytes
+
+/-- mirror of `loop`: the input that is left behind the line whose STARTTLS was accepted and answered -/
+def switchRest (e : Env) : Nat → Sess → Bytes → Option Bytes
+  | 0, _, _ => none
+  | fuel + 1, s, inp =>
+    if s.st == .quit then none
+    else if s.sendErr then none
+    else if s.st == .data then
+      match Dot.dotDecode inp with
+      | none => none
+      | some (block, rest) => switchRest e fuel (handleData e (send s 1) block []).1 rest
+    else
+      match Line.readLine inp with
+      | none => none
+      | some (line, rest) =>
+        let s1 := (handleLine e s line []).1
+        if !s.tls && s1.tls then (if s1.sendErr then none else some rest)
+        else switchRest e fuel s1 rest
+
+/-- a whole connection, from the bytes on the wire -/
+def runWire (e : Env) (budget : Option Nat) (w : Wire) : List Ev × Sess × End :=
+  if e.forceTLS then
+    -- tls.Listen: the greeting is the first write and needs the handshake
+    match w.tlsOpen w.pre with
+    | none => ([], { initFor e budget with sendErr := true }, .tlsFail)
+    | some q => run e budget q
+  else
+    match switchRest e (w.pre.length + 2) (send (initFor e budget) 1) w.pre with
+    | none => run e budget w.pre
+    | some rest =>
+      let consumed := w.pre.take (w.pre.length - rest.length)
+      match w.tlsOpen (rest.drop w.buffered) with
+      | none => let r := run e budget consumed; (r.1, { r.2.1 with sendErr := true }, .tlsFail)
+      | some q => run e budget (consumed ++ q)
 
 /-! ### the ways the input can end (read errors other than EOF)
 
